@@ -70,6 +70,14 @@ def run(ctx):
         texts.append(gen_prog.gen_program(rng, budget=5)[0])
         texts.append(gen_prog.gen_class_program(rng)[0])
     texts += ["std::array<int, N + 1> a;", "Mat<N * M> m;", "X<a < b, c> q;", "void f() { }", "struct A { A() : x(1) {} int x; };"]
+    # every operator and literal kind in every place where the parser keeps (and, verbosely, prints) an expression or a name
+    import gen_text
+    holes = ["void f(int a, int b = %s);", "template <int N = %s> struct S {};", "Tmpl<1 + %s> v;", "int x = %s;", "void g(int (*p)(int q = %s));",
+             "struct S { void m(int a = %s) const; };", "enum E { A = %s };", "int arr[%s];", "using U = X<(%s)>;", "void h() noexcept(%s);"]
+    for _ in range(ctx.budget(150, 5000)):
+        e = " ".join(gen_text.expression(rng, rng.choice([0, 1, 2])))
+        texts.append(rng.choice(holes) % e)
+    texts += [h % v for h in holes for v in ("A % 2", "\"%d items\"", "\"100%\"", "'%'", "a %% b"[0:5], "x % y % z", "\"%s %(name)s\"")]
     vfails = []
     ofails = []
     for t in texts:
